@@ -344,6 +344,65 @@ def Server.nexts (F : Facts) : Nat → Server → Nat → Server × List Resp
     let (sv2, rs) := Server.nexts F n sv1 id
     (sv2, r :: rs)
 
+/-! ### concurrent `next` requests on one stream id
+
+`NextHandler::handle` has three lock regions: the table lookup (`table.get`, clones the `Arc`), the
+pull under the session lock (`done` check, `pull`, `done := true`), and the table removal before the
+response is framed.  Any number of requests for the same id, from any connections, interleave at
+that granularity; `cancel` is one more table-lock region. -/
+
+inductive Call where
+  | start                                   -- request received, table not yet consulted
+  | holding                                 -- holds the `Arc<Mutex<Session>>`, waiting for the session lock
+  | pulled (k : Nat) (r : PullRes)          -- left the session lock as its `k`-th holder with outcome `r`
+  | answered (k : Option Nat) (resp : Resp) -- response framed (`k = none`: unknown stream id)
+  deriving Repr
+
+structure Conc where
+  present : Bool            -- the table maps the id to the session
+  sess : Session            -- the shared session (alive while any call holds the `Arc`)
+  calls : List Call
+  log : List PullRes := []  -- outcomes of the session-lock regions, in lock order
+
+inductive Act where
+  | call (i : Nat)   -- request `i` performs its next lock region
+  | cancel           -- a `cancel` for the id
+  deriving Repr
+
+def Conc.step (F : Facts) (s : Conc) : Act → Conc
+  | .cancel => { s with present := false }
+  | .call i =>
+    match s.calls[i]? with
+    | none => s
+    | some .start =>
+      { s with calls := s.calls.set i (if s.present then .holding else .answered none .error) }
+    | some .holding =>
+      let x := s.sess.locked F
+      { s with sess := x.1, calls := s.calls.set i (.pulled s.log.length x.2), log := s.log ++ [x.2] }
+    | some (.pulled k r) =>
+      match r with
+      | .ok (c, last) =>
+        { s with present := if last && F.removeOnLast then false else s.present,
+                 calls := s.calls.set i (.answered (some k) (.chunk c (lastQuery F last))) }
+      | .error _ =>
+        { s with present := if F.removeOnErr then false else s.present,
+                 calls := s.calls.set i (.answered (some k) .error) }
+    | some (.answered _ _) => s
+
+def Conc.run (F : Facts) : Conc → List Act → Conc
+  | s, [] => s
+  | s, a :: r => Conc.run F (s.step F a) r
+
+/-- `n` successive passes through the session-lock region. -/
+def lockedAll (F : Facts) : Nat → Session → List PullRes
+  | 0, _ => []
+  | n + 1, s => (s.locked F).2 :: lockedAll F n (s.locked F).1
+
+def Call.idx : Call → Option Nat
+  | .pulled k _ => some k
+  | .answered k _ => k
+  | _ => none
+
 /-! ### client: `ChunkReader` (sync) -/
 
 /-- `rs`: the responses the following `next` requests will get (an exhausted list stands for a
